@@ -558,6 +558,9 @@ impl Generator {
             t.mode = Mode::Image;
             t.faults.clear();
         }
+        if info.container == Container::Woff2 && t.mode == Mode::Image && rng.pct(60) {
+            t.ops.push(Op::Reconstruct);
+        }
         let nops = 1 + rng.usize_below(3);
         for _ in 0..nops {
             let kinds: &[&str] = if info.axes > 0 {
@@ -575,7 +578,7 @@ const ALL_KINDS: &[&str] = &[
     "FontNew", "LookupGlyph", "MapGlyphs", "HAdvance", "VAdvance", "GlyphNames",
     "GlyphImage", "HasImages", "SetImageFilter", "FontQuery", "TableData", "ParseTable",
     "ParseTable", "ParseTable", "Cmap", "Names", "Outline", "Outline", "Subset", "PrinceSubset",
-    "WholeFont", "Instance", "Metadata", "Load", "FeaturesSupported", "Shape",
+    "WholeFont", "Instance", "Metadata", "Load", "FeaturesSupported", "Shape", "Reconstruct",
 ];
 
 fn swarm_subset<'a>(rng: &mut Rng, all: &[&'a str]) -> Vec<&'a str> {
@@ -1389,6 +1392,7 @@ pub fn gen_op(rng: &mut Rng, info: &FontInfo, kind: &str) -> Op {
             }
         }
         "Metadata" => Op::Metadata,
+        "Reconstruct" => Op::Reconstruct,
         _ => Op::FontNew,
     }
 }
